@@ -23,19 +23,39 @@ def nospace(s):
     return re.sub(r"\s+", "", s)
 
 
-def run_fns(ctx, fns):
+def small_family(ctx, tag, max_eqs, sample, rich):
+    """the functions of spec/FoInferSmall.tla (all / a residue class of the equation sequences) with their principal types"""
     sd = ctx.spec_dir()
-    core.write_ndjson(os.path.join(sd, "inf_fns.ndjson"), [f.spec() for f in fns])
-    ctx.tlc("FoInferCases", "FoInferCases.cfg", workers=1, timeout=3000, heap_gb=6)
-    princ = core.read_ndjson(os.path.join(sd, "inf_principal.ndjson"))
-    if len(princ) != len(fns):
-        raise Infra("principal types missing")
-    dis = [p["name"] for p in princ if not p["agree"]]
-    if dis:
-        raise Infra("generator and FoInferGen disagree about the constraints of %s" % dis[:5])
+    out = "inf_small_%s.ndjson" % tag
+    slicecheck.write_cfg(ctx, "FoInferSmall_%s.cfg" % tag,
+                         "CONSTANTS\n  OutFile = \"%s\"\n  MaxEqs = %d\n  Sample = %d\n  Seed = %d\n  Rich = %s\nINIT Init\nNEXT Next\n" % (
+                             out, max_eqs, sample, ctx.seed, "TRUE" if rich else "FALSE"))
+    ctx.tlc("FoInferSmall", "FoInferSmall_%s.cfg" % tag, workers=1, timeout=3000, heap_gb=8)
+    rows = core.read_ndjson(os.path.join(sd, out))
+    fns, princ = [], []
+    for r in rows:
+        r["ast"]["name"] = tag + r["ast"]["name"]
+        fns.append(infgen.AstFn(r["ast"]))
+        p = dict(r["princ"])
+        p["name"] = fns[-1].name
+        princ.append(p)
+    return fns, princ
+
+
+def run_fns(ctx, fns, princ=None, tag=""):
+    sd = ctx.spec_dir()
+    if princ is None:
+        core.write_ndjson(os.path.join(sd, "inf_fns.ndjson"), [f.spec() for f in fns])
+        ctx.tlc("FoInferCases", "FoInferCases.cfg", workers=1, timeout=3000, heap_gb=6)
+        princ = core.read_ndjson(os.path.join(sd, "inf_principal.ndjson"))
+        if len(princ) != len(fns):
+            raise Infra("principal types missing")
+        dis = [p["name"] for p in princ if not p["agree"]]
+        if dis:
+            raise Infra("generator and FoInferGen disagree about the constraints of %s" % dis[:5])
     ctx.build("fc")
     fcutil.build_goast(ctx)
-    wd = ctx.mkdir("c02")
+    wd = ctx.mkdir("c02" + tag)
     # versions: v0 = no annotation; one version per non-empty subset of the redundant (ground) parameters (at most 8 per function)
     versions = []
     for f, p in zip(fns, princ):
@@ -86,7 +106,7 @@ def run_fns(ctx, fns):
             attempt(its[mid:], tag + "b")
         attempt(items, "x")
     # the un-annotated package must type-check in Go
-    d = ctx.go_module("c02build")
+    d = ctx.go_module("c02build" + tag)
     gen0 = os.path.join(wd, "gen_v0_x.go")
     build_note = ""
     if os.path.exists(gen0):
@@ -131,26 +151,11 @@ def run_fns(ctx, fns):
     return lines, bad, princ
 
 
-def run(ctx):
-    ctx.rule = ("functions of 1-4 un-annotated parameters from the seeded generator infgen.py over the constructs for which inference is "
-                "documented (arithmetic / comparison with a typed operand, = / <>, calls to library and user functions with known or generic "
-                "signatures (fresh instance per use), record / union construction, tuples, slices, destructuring, function-typed parameters "
-                "applied or passed once, generic user records / unions constructed, put into one slice literal and passed where a concrete instance is expected); quick 1200, thorough 60000 generated functions (those the rules reject as ill-typed are dropped, about 2/3), each with the un-annotated version and up to 7 subsets of its "
-                "redundant annotations. distinct = distinct (function, annotated subset); non-trivial = the principal type contains a type "
-                "constructor or a type variable")
-    r = ctx.tlc("FoInferMC", "FoInferMC.cfg", workers=4, timeout=1800)
-    n = 60000 if ctx.tier == "thorough" else 1200
-    rng = random.Random(ctx.seed * 15485863 + 2)
-    fns = infgen.generate(rng, n)
-    lines, bad, princ = run_fns(ctx, fns)
+def report(ctx, lines, bad, princ):
     for i, l in enumerate(lines):
         nt = l["ntparams"] > 0 or any(any(c in g for c in "[(") for g in l["gparams"] + [l["gres"]])
         ctx.case([l["fn"], l["annotated"]], nontrivial=nt,
                  sample={"source": l["src"], "signature": {"tparams": l["ntparams"], "params": l["gparams"], "result": l["gres"]}} if i % 211 == 4 else None)
-    ctx.traces = len(lines)
-    ctx.extra["functions"] = len(fns)
-    ctx.extra["ill_typed_by_the_rules_skipped"] = sum(1 for p in princ if not p["ok"])
-    ctx.exhaustive = False
     pm = {p["name"]: p for p in princ}
     for b in bad[:20]:
         l = lines[b - 1]
@@ -158,6 +163,37 @@ def run(ctx):
         ctx.violation("function %s (annotated: %s): status %s; emitted signature [%d type params] (%s) %s, same code as un-annotated: %s; principal: [%d] (%s) %s\n%s" % (
             l["name"], l["annotated"], l["status"], l["ntparams"], ", ".join(l["gparams"]), l["gres"], l["samecode"], p["ntparams"], ", ".join(p["params"]), p["res"], l["src"]),
             {"fn": l["fn"], "source": l["src"], "recorded": {k: l[k] for k in ("status", "ntparams", "gparams", "gres", "samecode")}, "principal": p})
+
+
+def run(ctx):
+    ctx.rule = ("functions of 1-4 un-annotated parameters from the seeded generator infgen.py over the constructs for which inference is "
+                "documented (arithmetic / comparison with a typed operand, = / <>, calls to library and user functions with known or generic "
+                "signatures (fresh instance per use), record / union construction, tuples, slices, destructuring, function-typed parameters "
+                "applied or passed once, generic user records / unions constructed, put into one slice literal and passed where a concrete instance is expected); quick 1200, thorough 60000 generated functions (those the rules reject as ill-typed are dropped, about 2/3), each with the un-annotated version and up to 7 subsets of its "
+                "redundant annotations; plus the small-scope family of spec/FoInferSmall.tla: every sequence of <= 2 equations x = t (x one of three "
+                "parameters, t of depth <= 1 over the parameters, int, string with [], tuple, IOpt, IBox; 135 equations, quick 1 in 12 of the "
+                "18,225 two-equation sequences, thorough all of them and 1 in 20 of the 592,704 three-equation sequences over the universe "
+                "without string / IBox). distinct = distinct (function, annotated subset); non-trivial = the principal type contains a type "
+                "constructor or a type variable")
+    r = ctx.tlc("FoInferMC", "FoInferMC.cfg", workers=4, timeout=1800)
+    n = 60000 if ctx.tier == "thorough" else 1200
+    rng = random.Random(ctx.seed * 15485863 + 2)
+    fns = infgen.generate(rng, n)
+    lines, bad, princ = run_fns(ctx, fns)
+    report(ctx, lines, bad, princ)
+    ctx.extra["functions"] = len(fns)
+    ctx.extra["ill_typed_by_the_rules_skipped"] = sum(1 for p in princ if not p["ok"])
+    # the small-scope exhaustive family: every sequence of <= 2 (3) equations x = t over three parameters
+    fams = [("s", 2, 0, True), ("t", 3, 20, False)] if ctx.tier == "thorough" else [("s", 2, 12, True)]
+    for tag, max_eqs, sample, rich in fams:
+        sfns, sprinc = small_family(ctx, tag, max_eqs, sample, rich)
+        slines, sbad, sprinc = run_fns(ctx, sfns, sprinc, tag=tag)
+        report(ctx, slines, sbad, sprinc)
+        ctx.extra["small_family_%s" % tag] = {"max_equations": max_eqs, "sampled_one_in": sample or 1, "functions": len(sfns),
+                                             "ill_typed_by_the_rules_skipped": sum(1 for p in sprinc if not p["ok"])}
+        lines = lines + slines
+    ctx.traces = len(lines)
+    ctx.exhaustive = False
     ctx.assumptions += ["the abstract syntax infgen.py attaches to each function is the syntax of the text it writes (the constraints themselves are generated in TLA+, FoInferGen)",
                         "signatures are read back with go/parser; white space removed before comparison"]
 
